@@ -45,6 +45,7 @@ type machine struct {
 	repeatedKeySet  int
 	maxLen          int
 	step            int
+	lastPair        [2]*mnode
 }
 
 func newMachine(st *Stats) *machine {
@@ -55,6 +56,16 @@ func newMachine(st *Stats) *machine {
 }
 
 func (m *machine) list(sel int) *mnode   { return m.h.lists[sel%len(m.h.lists)] }
+
+// target of a mutating list step: the list op.T selects or, in one step of four once a SubList or Concat
+// has happened, the receiver or the result of the most recent derivation (an operation on one of the two
+// is what an implementation that lets them share storage must get right)
+func (m *machine) target(op Op) *mnode {
+	if op.U%4 == 1 && m.lastPair[0] != nil {
+		return m.lastPair[(op.U/4)%2]
+	}
+	return m.list(op.T)
+}
 func (m *machine) object(sel int) *mnode { return m.h.objects[sel%len(m.h.objects)] }
 
 func (m *machine) noteMutation(n *mnode) {
@@ -255,7 +266,7 @@ func (m *machine) Step(op Op) error {
 		m.derived = true
 
 	case "add":
-		n := m.list(op.T)
+		n := m.target(op)
 		vs := make([]mval, len(op.Vals))
 		for i, s := range op.Vals {
 			vs[i] = h.resolve(s, n)
@@ -271,7 +282,7 @@ func (m *machine) Step(op Op) error {
 		m.noteMutation(n)
 
 	case "insert":
-		n := m.list(op.T)
+		n := m.target(op)
 		if len(op.Vals) == 0 {
 			return nil
 		}
@@ -294,7 +305,7 @@ func (m *machine) Step(op Op) error {
 		}
 
 	case "replace":
-		n := m.list(op.T)
+		n := m.target(op)
 		if len(op.Vals) == 0 {
 			return nil
 		}
@@ -315,7 +326,7 @@ func (m *machine) Step(op Op) error {
 		}
 
 	case "delete":
-		n := m.list(op.T)
+		n := m.target(op)
 		cnt := len(n.elems)
 		i := op.A%(cnt+4) - 2
 		bad := i < 0 || i >= cnt
@@ -363,7 +374,7 @@ func (m *machine) Step(op Op) error {
 		m.noteMutation(n)
 
 	case "pop":
-		n := m.list(op.T)
+		n := m.target(op)
 		cnt := len(n.elems)
 		var r at.List
 		if err := m.expectPanic(fmt.Sprintf("Pop on a list of %d", cnt), cnt == 0, func() { r = n.impl.(at.List).Pop() }); err != nil {
@@ -377,8 +388,28 @@ func (m *machine) Step(op Op) error {
 			m.noteMutation(n)
 		}
 
+	case "stack":
+		// the list used as a stack: Pop, then Add of one value
+		n := m.target(op)
+		if len(op.Vals) == 0 {
+			return nil
+		}
+		cnt := len(n.elems)
+		v := h.resolve(op.Vals[0], n)
+		if err := m.expectPanic(fmt.Sprintf("Pop on a list of %d", cnt), cnt == 0, func() { n.impl.(at.List).Pop() }); err != nil {
+			return err
+		}
+		if cnt > 0 {
+			n.elems = n.elems[: cnt-1 : cnt-1]
+		}
+		if err := m.expectPanic("Add after Pop", false, func() { n.impl.(at.List).Add(v.goValue()) }); err != nil {
+			return err
+		}
+		n.elems = append(n.elems, v)
+		m.noteMutation(n)
+
 	case "clear":
-		n := m.list(op.T)
+		n := m.target(op)
 		var r at.List
 		if err := m.expectPanic("Clear", false, func() { r = n.impl.(at.List).Clear() }); err != nil {
 			return err
@@ -390,7 +421,7 @@ func (m *machine) Step(op Op) error {
 		m.noteMutation(n)
 
 	case "reverse":
-		n := m.list(op.T)
+		n := m.target(op)
 		var r at.List
 		if err := m.expectPanic("Reverse", false, func() { r = n.impl.(at.List).Reverse() }); err != nil {
 			return err
@@ -421,7 +452,7 @@ func (m *machine) Step(op Op) error {
 		return m.Step(Op{Op: "sort", T: op.T})
 
 	case "sort":
-		n := m.list(op.T)
+		n := m.target(op)
 		if !sortDomain(n.elems) {
 			m.st.Count("sort.outside_domain_skipped")
 			return nil
@@ -477,14 +508,14 @@ func (m *machine) Step(op Op) error {
 			}
 			vs := append([]mval{}, n.elems[s:ee]...)
 			live := len(h.lists) < maxLiveLists
-			h.newList(r, vs, live)
+			m.lastPair = [2]*mnode{n, h.newList(r, vs, live)}
 			m.derived = true
 		}
 
 	case "bulk":
 		// grows a list by 63-4097 cheap scalars at once (sizes around powers of two), so that the later
 		// steps of the program work on a list far beyond the sizes single steps reach
-		n := m.list(op.T)
+		n := m.target(op)
 		k := bulkSizes[op.A%len(bulkSizes)]
 		if len(n.elems)+k > bulkCap {
 			return nil
@@ -564,7 +595,7 @@ func (m *machine) Step(op Op) error {
 			return errf("step %d: Concat returned an existing container instead of a new list", m.step)
 		}
 		vs := append(append([]mval{}, n.elems...), o.elems...)
-		h.newList(r, vs, len(h.lists) < maxLiveLists)
+		m.lastPair = [2]*mnode{n, h.newList(r, vs, len(h.lists) < maxLiveLists)}
 		m.derived = true
 		if n == o {
 			m.st.Count("concat.self")
@@ -1255,8 +1286,8 @@ func genRawSlice(t *rapid.T, lo, hi int) []int {
 	return out
 }
 
-var listOpNames = []string{"addmany", "add", "insert", "replace", "delete", "deletemulti", "pop", "clear", "reverse", "sort", "sublist", "concat", "getters", "contains", "newlist", "newlistof", "newlistfrom", "sortrun", "bulk"}
-var listOpWeights = []int{6, 22, 10, 7, 6, 3, 5, 1, 4, 5, 9, 9, 5, 6, 4, 2, 4, 4, 1}
+var listOpNames = []string{"addmany", "add", "insert", "replace", "delete", "deletemulti", "pop", "clear", "reverse", "sort", "sublist", "concat", "getters", "contains", "newlist", "newlistof", "newlistfrom", "sortrun", "bulk", "stack"}
+var listOpWeights = []int{6, 22, 10, 7, 6, 3, 5, 1, 4, 5, 9, 9, 5, 6, 4, 2, 4, 4, 1, 4}
 
 var objectOpNames = []string{"set", "unset", "oclear", "merge", "pluck", "ogetters", "ocontains", "newobject", "newobjectfrom", "bigunset", "bigset", "unsetmany"}
 var objectOpWeights = []int{24, 9, 1, 10, 9, 8, 8, 6, 5, 1, 1, 2}
@@ -1273,7 +1304,7 @@ func genListOp(t *rapid.T) Op {
 		op.Vals = genVals(t, 5, 12, 1)
 	case "add", "newlist":
 		op.Vals = genVals(t, 0, 4, 3)
-	case "insert", "replace", "contains", "newlistof":
+	case "insert", "replace", "contains", "newlistof", "stack":
 		op.Vals = genVals(t, 1, 1, 3)
 	case "newlistfrom":
 		op.Vals = genVals(t, 0, 4, 3)
